@@ -352,6 +352,14 @@ func (w *World) funcFieldContract(v ssa.Value) *Contract {
 			}
 		}
 	}
+	if pr, ok := v.(*ssa.Parameter); ok && pr.Parent() != nil {
+		key := "param:" + funcKey(pr.Parent()) + "." + pr.Name()
+		if pi := w.pkgs[funcPkgPath(pr.Parent())]; pi != nil && pi.cf != nil {
+			if c, ok := pi.cf.Contracts[key]; ok {
+				return c
+			}
+		}
+	}
 	if n, ok := v.Type().(*types.Named); ok && n.Obj().Pkg() != nil {
 		key := "type:" + n.Obj().Name()
 		if pi := w.pkgs[n.Obj().Pkg().Path()]; pi != nil && pi.cf != nil {
@@ -549,10 +557,10 @@ func isLocalAddr(v ssa.Value) bool {
 
 // staticModFams resolves the families named by a modifies clause without a state
 // (used by the loop write-set scan).  Returns false when that is not possible.
-func (w *World) staticModFams(u *Unit, pk *PkgInfo, c *Contract, x SExpr) (map[string]string, bool) {
+func (w *World) staticModFams(u *Unit, pk *PkgInfo, c *Contract, x SExpr, sig *types.Signature, recvT types.Type) (map[string]string, bool) {
 	// Evaluate in a scratch state with fresh parameter values.
 	fn := w.findFuncByContract(pk, c)
-	if fn == nil {
+	if fn == nil && sig == nil {
 		return nil, false
 	}
 	out := map[string]string{}
@@ -569,18 +577,26 @@ func (w *World) staticModFams(u *Unit, pk *PkgInfo, c *Contract, x SExpr) (map[s
 		}()
 		st := &State{G: TTrue, Env: map[ssa.Value]Value{}, Heap: map[string]Term{}, Names: map[string]nameRef{}, Ghost: map[string]Term{}, Alloc: u.pre0Alloc()}
 		env := &SpecEnv{u: u, st: st, old: st, vars: map[string]Value{}, pkg: pk}
-		for _, p := range fn.Params {
-			env.vars[p.Name()] = u.freshValue(p.Type(), "scan_"+p.Name())
+		if fn != nil {
+			for _, p := range fn.Params {
+				env.vars[p.Name()] = u.freshValue(p.Type(), "scan_"+p.Name())
+			}
+			if sig == nil {
+				sig = fn.Signature
+			}
 		}
-		if len(fn.Params) == 0 {
-			if rv := fn.Signature.Recv(); rv != nil {
+		if fn == nil || len(fn.Params) == 0 {
+			if recvT != nil {
+				env.vars["recv"] = u.freshValue(recvT, "scan_recv")
+			}
+			if rv := sig.Recv(); rv != nil && recvT == nil {
 				v := u.freshValue(rv.Type(), "scan_recv")
 				env.vars["recv"] = v
 				if rv.Name() != "" && rv.Name() != "_" {
 					env.vars[rv.Name()] = v
 				}
 			}
-			ps := fn.Signature.Params()
+			ps := sig.Params()
 			for i := 0; i < ps.Len(); i++ {
 				v := u.freshValue(ps.At(i).Type(), fmt.Sprintf("scan_arg%d", i))
 				env.vars[fmt.Sprintf("arg%d", i)] = v
